@@ -425,6 +425,9 @@ package main
 //@ func (service).Infof
 //@   trusted
 //@   modifies nothing
+//@ func (service).Errorf
+//@   trusted
+//@   modifies nothing
 
 // HasProto: p is one of the configured protocols.
 //@ pred HasProto(c *controller, p config.Proto) := exists k int :: 0 <= k && k < len(c.protocols) && c.protocols[k] == p
@@ -544,3 +547,33 @@ package main
 //@   loop 2 binds protocol
 //@   loop 2 invariant CtlInv(c) && (forall p config.Proto, s string :: s != name ==> c.announced[p][s] == old(c.announced[p][s])) && (forall s string :: s != name ==> (s in c.svcIPs) == old(s in c.svcIPs) && sameSlice(c.svcIPs[s], old(c.svcIPs[s])))
 //@   loop 2 invariant (name in c.svcIPs) ==> IPsMatch(lbIPs, c.svcIPs[name])
+
+// ---- C09 / C13: what the layer-2 handler asks the announcer to announce ----
+// ipAdvertisementFor: the address with "all interfaces" if some L2 advertisement selecting this node says so, else with
+// exactly the union of the interface lists of the L2 advertisements that select this node
+//@ pred L2Sel(l2 *config.L2Advertisement, node string) := (node in l2.Nodes) && l2.Nodes[node]
+//@ func ipAdvertisementFor
+//@   requires forall j int :: 0 <= j && j < len(l2Advertisements) ==> l2Advertisements[j] != nil
+//@   ensures [ip] sameSlice(result.ip, ip)
+//@   ensures [all] result.allInterfaces == (exists j int :: 0 <= j && j < len(l2Advertisements) && L2Sel(l2Advertisements[j], localNode) && l2Advertisements[j].AllInterfaces)
+//@   ensures [ifs] !result.allInterfaces ==> (forall x string :: (x in result.interfaces) == (exists j int, k int :: 0 <= j && j < len(l2Advertisements) && L2Sel(l2Advertisements[j], localNode) && 0 <= k && k < len(l2Advertisements[j].Interfaces) && l2Advertisements[j].Interfaces[k] == x))
+//@   modifies fresh sets.Set[string]
+//@   loop 1 binds l2
+//@   loop 1 invariant ifs != nil && fresh(ifs)
+//@   loop 1 invariant forall j int :: 0 <= j && j < iter ==> !(L2Sel(l2Advertisements[j], localNode) && l2Advertisements[j].AllInterfaces)
+//@   loop 1 invariant forall x string :: (x in ifs) == (exists j int, k int :: 0 <= j && j < iter && L2Sel(l2Advertisements[j], localNode) && 0 <= k && k < len(l2Advertisements[j].Interfaces) && l2Advertisements[j].Interfaces[k] == x)
+
+// layer2Controller.SetBalancer (abstracted mode): every announcement handed to the announcer is for one of the Service's
+// addresses, under the Service's name, with the interface set ipAdvertisementFor derives from the pool's L2
+// advertisements for this node, and only if that set covers an interface the node has
+//@ func (*layer2Controller).SetBalancer
+//@   abstract
+//@   requires c != nil && pool != nil && (forall j int :: 0 <= j && j < len(pool.L2Advertisements) ==> pool.L2Advertisements[j] != nil)
+//@   requires [unlocked] c.announcer != nil && lockstate(c.announcer.RWMutex) == 0
+//@   assert before SetBalancer: [name] arg1 == name
+//@   assert before SetBalancer: [ip] sameSlice(arg2.ip, lbIP) && 0 <= idx(1) && idx(1) < len(lbIPs) && sameSlice(lbIP, lbIPs[idx(1)])
+//@   assert before SetBalancer: [all] arg2.allInterfaces == (exists j int :: 0 <= j && j < len(pool.L2Advertisements) && L2Sel(pool.L2Advertisements[j], c.myNode) && pool.L2Advertisements[j].AllInterfaces)
+//@   assert before SetBalancer: [ifs] !arg2.allInterfaces ==> (forall x string :: (x in arg2.interfaces) == (exists j int, k int :: 0 <= j && j < len(pool.L2Advertisements) && L2Sel(pool.L2Advertisements[j], c.myNode) && 0 <= k && k < len(pool.L2Advertisements[j].Interfaces) && pool.L2Advertisements[j].Interfaces[k] == x))
+//@   assert before SetBalancer: [usable] arg2.allInterfaces || (exists k int :: 0 <= k && k < len(ifs) && (ifs[k] in arg2.interfaces))
+//@   loop 1 binds lbIP
+//@   loop 1 invariant c.announcer != nil && lockstate(c.announcer.RWMutex) == 0
